@@ -55,6 +55,7 @@ structure AttObj where
   authDataRaw : Cbor            -- `attestation_dict["authData"]` as decoded
   authData : AuthData
   attStmt : AttStmt
+  attStmtRaw : Option Cbor      -- `parse_cbor(attestation_object).get("attStmt")`
   deriving Repr, Inhabited
 
 def attStmtOf (kvs : List (Cbor × Cbor)) : Except Err AttStmt :=
@@ -68,7 +69,8 @@ def parseAttObjMap (kvs : List (Cbor × Cbor)) : Except Err AttObj := do
   let adBytes ← authDataBytesOf adRaw
   let ad ← parseAuthData adBytes
   let stmt ← attStmtOf kvs
-  pure { fmt, authDataRaw := adRaw, authData := ad, attStmt := stmt }
+  pure { fmt, authDataRaw := adRaw, authData := ad, attStmt := stmt,
+         attStmtRaw := Cbor.lookupText kvs "attStmt" }
 
 /-- `parse_attestation_object` -/
 def parseAttObj (val : Bytes) : Except Err AttObj := do
